@@ -408,20 +408,20 @@ def _sym_strip(ex, s, p, pre):
 def install(ex):
     """hooks used by the generic models in models_std for symbolic strings"""
     ex.sym_strip = lambda s, p, pre: _sym_strip(ex, s, p, pre)
-    ex.sym_split = lambda s, p: _sym_split(ex, s, p)
+    ex.sym_split = lambda s, p, term=False: _sym_split(ex, s, p, term)
     ex.sym_chars = lambda s: IterV('chars', s, 0)
 
 
-def _sym_split(ex, s, p):
+def _sym_split(ex, s, p, term=False):
     """str::split(char) on a symbolic string: the separator positions are
     decided one by one (fork), giving concrete piece boundaries per path"""
     if not isinstance(p, (bytes, bytearray)) or len(p) != 1:
         raise Unsupported('split with a non-char pattern on a symbolic string')
-    return IterV('split', (s, p[0]), 0, extra=False)
+    return IterV('split', (s, p[0], term), 0, extra=False)
 
 
 def _split_next(ex, it):
-    s, sep = it.src
+    s, sep, term = it.src
     if it.extra:       # finished
         return none()
     bs, ln, cap = S.parts(s)
@@ -438,7 +438,13 @@ def _split_next(ex, it):
     k = ex.decide(conds)
     if k == len(conds) - 1:
         it.extra = True
-        return some(StrV(sub_sstr(s, start, len_minus(ln, start))))
+        rest = len_minus(ln, start)
+        if term:
+            # split_terminator: a trailing empty piece is not produced
+            empty = (rest == 0) if isinstance(rest, int) else (rest == z3.BitVecVal(0, 64))
+            if ex.branch(empty):
+                return none()
+        return some(StrV(sub_sstr(s, start, rest)))
     j = start + k
     it.pos = j + 1
     return some(StrV(sub_sstr(s, start, j - start)))
